@@ -427,13 +427,19 @@ def path_condition(ctx, f, stmt: ast.AST):
                         if isinstance(p, ast.MatchOr):
                             parts = [pat_term(x) for x in p.patterns]
                             return ("bool", "or", tuple(parts)) if all(x is not None for x in parts) else None
+                        if isinstance(p, ast.MatchSequence) and all(isinstance(x, ast.MatchAs) and x.pattern is None for x in p.patterns):
+                            # `case [a, b]` (captures / wildcards only): the subject has exactly that many items
+                            return ("cmp", "==", ("call", ("builtin", "len"), (subj,), ()), ("const", len(p.patterns)))
                         return None
 
+                    # the negation of a sequence pattern says something about the length only for a subject known to
+                    # be a list or tuple (`s.split(...)`, a display): other objects fail the pattern whatever their length
+                    subj_is_seq = subj[0] in ("list", "tuple") or (subj[0] == "call" and subj[1][0] == "attr" and subj[1][2] in ("split", "rsplit", "splitlines", "partition", "rpartition"))
                     for prev_case in mt.cases:
                         if prev_case is cur:
                             break
                         pt_ = pat_term(prev_case.pattern)
-                        if pt_ is not None and prev_case.guard is None:
+                        if pt_ is not None and prev_case.guard is None and (subj_is_seq or not isinstance(prev_case.pattern, ast.MatchSequence)):
                             out.append((pt_, False))
                     pt_ = pat_term(cur.pattern)
                     if pt_ is not None:
